@@ -493,3 +493,52 @@ def h13(ctx):
 
 
 RULES.append(h13)
+
+
+@rule("H14", doc="the condition combinators of conditional rules mean what their names say: or(x, y) is true as soon as x is and otherwise y's answer; and(x, y) is false as soon as x is and otherwise y's answer; not(x) negates — a conditional rule fires exactly under the condition its author wrote")
+def h14(ctx):
+    crate = ctx.lib()
+    n = 0
+    for name, short_const in (("or", True), ("and", False)):
+        fs = [b for b in crate.by_name.get(name, []) if b.kind == "Fn" and (b.file or "").endswith("rewrite/mod.rs")]
+        if len(fs) != 1:
+            continue
+        f = fs[0]
+        for cl in f.closures:
+            calls = [c for c in cl.calls if c.callee and c.callee.name in ("call", "call_mut", "call_once") and not cl.blocks[c.bb]["cleanup"]]
+            if len(calls) != 2:
+                continue
+            n += 1
+            first = [c for c in calls if any(cl.dominated_by(o.bb, [c.bb]) for o in calls if o is not c)]
+            ok = False
+            why = "shape not recognised"
+            if len(first) == 1:
+                c1 = first[0]
+                c2 = [c for c in calls if c is not c1][0]
+                for sb in cl.switch_blocks():
+                    t = cl.blocks[sb]["term"]
+                    pl = mir.op_place(t["discr"])
+                    if pl is None or pl["p"] or pl["l"] != c1.dest["l"]:
+                        continue
+                    true_e = [("e", sb, "otherwise")] if any(v == "0" for v, _ in t["cases"]) else [("e", sb, "1")]
+                    false_e = [("e", sb, "0")]
+                    short_e, long_e = (true_e, false_e) if short_const else (false_e, true_e)
+                    consts = [d for d in cl.defs().get(0, []) if d["kind"] == "assign" and C.const_bool(d["rv"]) is not None]
+                    okc = len(consts) == 1 and C.const_bool(consts[0]["rv"]) is short_const and cl.dominated_by(consts[0]["bb"], short_e)
+                    oky = cl.dominated_by(c2.bb, long_e) and c2.dest["l"] == 0
+                    ok = okc and oky
+                    why = "constant answer %s on the %s edge of the first condition, second condition consulted: %s" % ([C.const_bool(d["rv"]) for d in consts], "right" if okc else "wrong", oky)
+            ctx.check(ok, "combinator:" + name, "%s(x, y) short-circuits to %s when x is %s and otherwise answers y" % (name, str(short_const).lower(), str(short_const).lower()),
+                      "rewrite::%s does not compute `x %s y` (%s): a rule guarded by it fires when its author's condition does not hold, or not when it does" % (name, "||" if short_const else "&&", why), where_of(cl))
+    fs = [b for b in crate.by_name.get("not", []) if b.kind == "Fn" and (b.file or "").endswith("rewrite/mod.rs")]
+    for f in fs:
+        for cl in f.closures:
+            r = strip_role(cl.role_of_local(0))
+            n += 1
+            ctx.check(isinstance(r, tuple) and r[0] == "un" and r[1] == "Not", "combinator:not", "not(x) negates x's answer", "rewrite::not returns %s" % role_str(r)[:60], where_of(cl))
+    # (no floor: the combinators are a convenience of the public API and may be removed)
+    if n == 0:
+        ctx.ok("combinator:none", "the library defines no condition combinators")
+
+
+RULES.append(h14)
